@@ -38,6 +38,7 @@ class ParserState:
         "furthest_pos",
         "furthest_stack",
         "furthest_unexpected",
+        "hide_pairs",
         "input",
         "neg_pred_depth",
         "parser",
@@ -66,6 +67,7 @@ class ParserState:
         self._pos_history: list[int] = []
         self._suppress_failures = False
         self.atomic_depth = SnapshottingInt()
+        self.hide_pairs = False  # True directly inside an atomic (`@`) rule.
         self.rule_stack = Stack[Rule | RuleFrame]()  # RuleFrame is for generated code.
         self.tag_stack: list[str] = []  # User tags are always enabled
         self.user_stack = Stack[str]()  # PUSH/POP/PEEK/DROP
